@@ -139,7 +139,8 @@ class ClientConnView:
         sc = conn.first('CLOSE')
         self.client_gave_up = pc is not None and (sc is None or pc[0] < sc[0])
         self.methods = [r.method for r in self.reqs if not getattr(r, 'partial_head', False)]
-        self.resps, self.resp_left, self.resp_err = parse_responses(self.recv_raw, self.methods, closed=self.squid_fin)
+        # a close-delimited response is complete only when squid ended the stream; an end caused by the client's own (earlier) close completes nothing
+        self.resps, self.resp_left, self.resp_err = parse_responses(self.recv_raw, self.methods, closed=self.squid_fin and not self.client_gave_up)
         self.finals = [r for r in self.resps if not getattr(r, 'interim', False) and not getattr(r, 'partial_head', False)]
     def req_ids(self):
         return [r.get(b'x-sim-req') for r in self.reqs]
